@@ -3,10 +3,10 @@
 use jrsonnet_evaluator::{
 	bail,
 	function::{builtin, FuncVal, NativeFn},
-	runtime_error,
+	in_description_frame, runtime_error,
 	typed::{BoundedI32, BoundedUsize, Either2, FromUntyped},
 	val::{equals, ArrValue, IndexableVal},
-	Either, IStr, ObjValue, ObjValueBuilder, Result, ResultExt, Thunk, Val,
+	Either, IStr, ObjValue, ObjValueBuilder, Result, Thunk, Val,
 };
 
 pub fn eval_on_empty(on_empty: Option<Thunk<Val>>) -> Result<Val> {
@@ -277,9 +277,12 @@ pub fn deep_join_inner(out: &mut String, arr: IndexableVal) -> Result<()> {
 	match arr {
 		IndexableVal::Str(s) => write!(out, "{s}").expect("no error"),
 		IndexableVal::Arr(arr) => {
-			for ele in arr.iter() {
+			for (i, ele) in arr.iter().enumerate() {
 				let indexable = IndexableVal::from_untyped(ele?)?;
-				deep_join_inner(out, indexable)?;
+				in_description_frame(
+					|| format!("elem <{i}> joining"),
+					|| deep_join_inner(out, indexable),
+				)?;
 			}
 		}
 	}
@@ -425,8 +428,12 @@ pub fn builtin_flatten_deep_array(value: Val) -> Result<Vec<Val>> {
 	fn process(value: Val, out: &mut Vec<Val>) -> Result<()> {
 		match value {
 			Val::Arr(arr) => {
-				for ele in arr.iter() {
-					process(ele?, out)?;
+				for (i, ele) in arr.iter().enumerate() {
+					let ele = ele?;
+					in_description_frame(
+						|| format!("elem <{i}> flattening"),
+						|| process(ele, out),
+					)?;
 				}
 			}
 			_ => out.push(value),
@@ -458,15 +465,16 @@ pub fn builtin_prune(
 		Val::Arr(a) => {
 			let mut out = Vec::new();
 			for (i, ele) in a.iter().enumerate() {
-				let ele = ele
-					.and_then(|v| {
+				let ele = in_description_frame(
+					|| format!("elem <{i}> pruning"),
+					|| {
 						builtin_prune(
-							v,
+							ele?,
 							#[cfg(feature = "exp-preserve-order")]
 							preserve_order,
 						)
-					})
-					.with_description(|| format!("elem <{i}> pruning"))?;
+					},
+				)?;
 				if is_content(&ele) {
 					out.push(ele);
 				}
@@ -479,15 +487,16 @@ pub fn builtin_prune(
 				#[cfg(feature = "exp-preserve-order")]
 				preserve_order,
 			) {
-				let value = value
-					.and_then(|v| {
+				let value = in_description_frame(
+					|| format!("field <{name}> pruning"),
+					|| {
 						builtin_prune(
-							v,
+							value?,
 							#[cfg(feature = "exp-preserve-order")]
 							preserve_order,
 						)
-					})
-					.with_description(|| format!("field <{name}> pruning"))?;
+					},
+				)?;
 				if !is_content(&value) {
 					continue;
 				}
